@@ -470,6 +470,50 @@ func VerifPathProbe(path, from string) (unvendored string, importable, isWire bo
 	return unvendored, importableFrom(path, from), isWireImport(path)
 }
 
+// VerifAccessProbe type-checks a one-file package with import path libPath
+// (decls, then the expression: as the initialiser of a package-level variable,
+// or, if locals is not empty, inside a function after those statements) and
+// runs accessibleFrom on the expression for the package wantPkg.
+func VerifAccessProbe(libPath, decls, locals, expr, wantPkg string) (msg string, ok bool) {
+	defer func() {
+		if r := recover(); r != nil {
+			msg, ok = "PANIC: "+fmt.Sprint(r), false
+		}
+	}()
+	fset := token.NewFileSet()
+	src := "package lib\n" + decls + "\n"
+	if locals == "" {
+		src += "var _ = " + expr + "\n"
+	} else {
+		src += "func _() {\n" + locals + "\n_ = " + expr + "\n}\n"
+	}
+	f, err := parser.ParseFile(fset, "lib.go", src, 0)
+	if err != nil {
+		return "parse: " + err.Error(), false
+	}
+	info := &types.Info{
+		Types:  make(map[ast.Expr]types.TypeAndValue),
+		Defs:   make(map[*ast.Ident]types.Object),
+		Uses:   make(map[*ast.Ident]types.Object),
+		Scopes: make(map[ast.Node]*types.Scope),
+	}
+	conf := types.Config{Importer: importer.Default()}
+	if _, err := conf.Check(libPath, fset, []*ast.File{f}, info); err != nil {
+		return "check: " + err.Error(), false
+	}
+	var e ast.Expr
+	switch last := f.Decls[len(f.Decls)-1].(type) {
+	case *ast.GenDecl:
+		e = last.Specs[0].(*ast.ValueSpec).Values[0]
+	case *ast.FuncDecl:
+		e = last.Body.List[len(last.Body.List)-1].(*ast.AssignStmt).Rhs[0]
+	}
+	if err := accessibleFrom(info, e, wantPkg); err != nil {
+		return err.Error(), true
+	}
+	return "", true
+}
+
 // VerifValueCheck type-checks "package p; <decls>; var _ = Value(<expr>)"
 // and runs processValue on the call.
 func VerifValueCheck(decls, expr string) (accepted bool, msg string) {
